@@ -80,6 +80,17 @@ type Toolbox struct {
 // NewScratch creates the per-process scratch directory (outside /repo, /verif, /tmp).
 func NewScratch() (string, error) {
 	base := envOr("VERIF_SCRATCH", "/var/tmp")
+	// sweep scratch directories of dead processes (a crashed run cannot clean up after itself)
+	if ents, err := os.ReadDir(base); err == nil {
+		for _, e := range ents {
+			var pid int
+			if n, _ := fmt.Sscanf(e.Name(), "sebuf-verif.%d", &pid); n == 1 && pid != os.Getpid() {
+				if err := syscall.Kill(pid, 0); err != nil {
+					_ = os.RemoveAll(filepath.Join(base, e.Name()))
+				}
+			}
+		}
+	}
 	d := filepath.Join(base, fmt.Sprintf("sebuf-verif.%d", os.Getpid()))
 	if err := os.MkdirAll(d, 0o755); err != nil {
 		return "", err
